@@ -260,7 +260,7 @@ func (it *Interp) appendVals(s *SliceV, add []Value, st types.Type) *SliceV {
 func isIntrinsicName(n string) bool {
 	return strings.HasPrefix(n, "vNondet") || n == "vAssume" || n == "vAssert" || n == "vCover" ||
 		n == "vMapOrder" || n == "vFail" || n == "vNum" || n == "vParam" || n == "vHexLE" ||
-		n == "vUF1" || n == "vUF2" || n == "vUFStr" || n == "vExpectPanicNext" || n == "vTrace" || n == "vIsConcrete"
+		n == "vUF1" || n == "vUF2" || n == "vUFStr" || n == "vExpectPanicNext" || n == "vTrace" || n == "vIsConcrete" || n == "vLockHeld"
 }
 
 func (it *Interp) newNondet(kind string, w int, hint string) *Term {
@@ -376,6 +376,17 @@ func (it *Interp) intrinsic(fn *ssa.Function, args []Value) Value {
 			fmt.Printf("TRACE %s: %s\n", it.strArg(args[0]), showValue(args[1]))
 		}
 		return nil
+	case "vLockHeld":
+		// argument: pointer to a sync.Mutex / sync.RWMutex (passed as any)
+		v := args[0]
+		if iv, ok := v.(*IfaceV); ok {
+			v = iv.v
+		}
+		p, ok := v.(*Ptr)
+		if !ok || p == nil || p.cell == nil {
+			panic(unsupported("vLockHeld: not a pointer to a mutex"))
+		}
+		return ts.Bool(it.locks[lockKey(p)] > 0)
 	case "vIsConcrete":
 		t, ok := args[0].(*Term)
 		return ts.Bool(ok && t.IsConst())
